@@ -237,9 +237,83 @@ def gen_uf(parts):
         T.fail(UF_REL, fn, "fields not all initialised: missing %s" % sorted(set(UF_FIELDS) - set(init)))
     if none_case is None or not loop:
         T.fail(UF_REL, fn, "__init__ lacks the None test or the `self.add` loop")
-    return """
+    add_text = gen_add(src, tree, parts)
+    return add_text + """
 (* UnionFind.__init__(elements=None) *)
 Definition uf_new : uf := mkuf %s %s %s %s %s %s %s.
 Definition uf_init_none : list Z := %s.
-Definition uf_init (elements : list Z) : uf := fold_left (fun s elt => add s elt) elements uf_new.
+Definition uf_init (elements : list Z) : uf := fold_left (fun s elt => uf_add s elt) elements uf_new.
 """ % (init["_elts"], init["_par"], init["_siz"], init["n_comps"], init["n_elts"], init["_next"], init["_indx"], none_case)
+
+
+
+def gen_add(src, tree, parts):
+    """UnionFind.add by symbolic execution of its straight-line body: `if x in self: return`, then appends to the three
+    lists, one dict store under the key x, increments of the three counters - in any order the code chooses; the result is
+    each field's final value in terms of the state before the call. Anything else fails closed."""
+    fn = T.find_def(tree, "UnionFind.add", UF_REL)
+    parts.append(("UnionFind.add", T.sha(src, fn)))
+    params = [a.arg for a in fn.args.args]
+    if len(params) != 2 or params[0] != "self":
+        T.fail(UF_REL, fn, "add does not take (self, x)")
+    x = params[1]
+    body = T.body_nodoc(fn)
+    g = body[0] if body else None
+    ok = (isinstance(g, ast.If) and not g.orelse and isinstance(g.test, ast.Compare) and T.dotted(g.test.left) == x
+          and len(g.test.ops) == 1 and isinstance(g.test.ops[0], ast.In)
+          and T.dotted(g.test.comparators[0]) in ("self", "self._indx")
+          and len(g.body) == 1 and isinstance(g.body[0], ast.Return)
+          and (g.body[0].value is None or (isinstance(g.body[0].value, ast.Constant) and g.body[0].value.value is None)))
+    if not ok:
+        T.fail(UF_REL, fn, "add does not start with `if %s in self: return`" % x)
+    lists = {"_elts": [], "_par": [], "_siz": []}
+    puts = []
+    incr = {"_next": 0, "n_elts": 0, "n_comps": 0}
+    coqname = {"_next": "next s", "n_elts": "n_elts s", "n_comps": "ncomps s"}
+
+    def natexpr(e):
+        """value of a natural-number expression NOW (counters read their current symbolic value)"""
+        if isinstance(e, ast.Constant) and type(e.value) is int and e.value >= 0:
+            return "%d" % e.value
+        d = T.dotted(e)
+        if d and d.startswith("self.") and d[5:] in incr:
+            k = incr[d[5:]]
+            return coqname[d[5:]] if k == 0 else "%s + %d" % (coqname[d[5:]], k)
+        T.fail(UF_REL, e, "unsupported index expression in add")
+
+    for st in body[1:]:
+        if isinstance(st, ast.Expr) and isinstance(st.value, ast.Call) and isinstance(st.value.func, ast.Attribute) \
+                and st.value.func.attr == "append" and len(st.value.args) == 1 and not st.value.keywords:
+            tgt = T.dotted(st.value.func.value) or ""
+            f = tgt[5:] if tgt.startswith("self.") else None
+            if f not in lists:
+                T.fail(UF_REL, st, "append to something that is not _elts/_par/_siz")
+            a = st.value.args[0]
+            if f == "_elts":
+                if T.dotted(a) != x:
+                    T.fail(UF_REL, st, "_elts.append of something that is not the element")
+                lists[f].append("x")
+            else:
+                lists[f].append(natexpr(a))
+        elif isinstance(st, ast.Assign) and len(st.targets) == 1 and isinstance(st.targets[0], ast.Subscript) \
+                and T.dotted(st.targets[0].value) == "self._indx" and T.dotted(st.targets[0].slice) == x:
+            puts.append("(x, %s)" % natexpr(st.value))
+        elif isinstance(st, ast.AugAssign) and isinstance(st.op, ast.Add) and isinstance(st.value, ast.Constant) \
+                and type(st.value.value) is int and st.value.value >= 0 and (T.dotted(st.target) or "")[5:] in incr \
+                and (T.dotted(st.target) or "").startswith("self."):
+            incr[T.dotted(st.target)[5:]] += st.value.value
+        else:
+            T.fail(UF_REL, st, "unsupported statement in add")
+
+    def lst(base, items):
+        return base if not items else "%s ++ [%s]" % (base, "; ".join(items))
+
+    def cnt(f):
+        return coqname[f] if incr[f] == 0 else "%s + %d" % (coqname[f], incr[f])
+    return """
+(* UnionFind.add: the fields after adding an element that was not there, by symbolic execution of the body *)
+Definition uf_add_new (s : uf) (x : Z) : uf :=
+  mkuf (%s) (%s) (%s) (%s) (%s) (%s) (%s).
+Definition uf_add (s : uf) (x : Z) : uf := if mem s x then s else uf_add_new s x.
+""" % (lst("elts s", lists["_elts"]), lst("par s", lists["_par"]), lst("siz s", lists["_siz"]), cnt("n_comps"),
+       cnt("n_elts"), cnt("_next"), lst("indx s", puts))
